@@ -270,6 +270,37 @@ func lemmaCmpTrans(a, b, c Object) (ab, bc, ac int, eab, ebc, eac bool) {
 //@   ensures  noinplace:: memsame(keyValuePair) && memsame(Object)
 //@   property C06
 
+//@ define missmono() = forallv(func(x *Environment) bool { return implies(old(allocated(x)), x.getMiss >= old(x.getMiss)) })
+
+//@ func (*Environment).makeRef
+//@   requires e != nil
+//@   modifies Environment.getMiss, key MH:Str:Iface, key MV:Str:Iface
+//@   nosafety
+//@   maypanic *
+//@   loop 1 invariant @C04 missmono()
+//@   ensures  @C04 mono:: missmono()
+//@   property C04
+
+//@ func (*Environment).SetNoChecks
+//@   requires e != nil
+//@   modifies *
+//@   nosafety
+//@   maypanic *
+//@   ensures  @C04 mono:: missmono()
+//@   property C04
+
+//@ func (*Environment).TriggerNoCache
+//@   requires e != nil
+//@   modifies e.cantCache, e.getMiss
+//@   ensures  e.getMiss == old(e.getMiss) + 1 && e.cantCache
+//@   property C04
+
+//@ func (*Environment).GetMisses
+//@   requires e != nil
+//@   pure
+//@   ensures  result == e.getMiss
+//@   property C04
+
 // Get writes the lookup bookkeeping (cantCache, getMiss), may cache a Reference in the receiver's store, and for the
 // name "info" builds fresh maps: its frame is trusted (the write audit cannot tell that Info's maps are fresh).
 //@ func (*Environment).Get
@@ -278,7 +309,8 @@ func lemmaCmpTrans(a, b, c Object) (ab, bc, ac int, eab, ebc, eac bool) {
 //@   trustframe
 //@   nosafety
 //@   maypanic *
-//@   property C06
+//@   ensures  @C04 mono:: missmono()
+//@   property C06 C04
 
 //@ func (*Environment).CreateOrSet
 //@   requires e != nil
@@ -287,10 +319,11 @@ func lemmaCmpTrans(a, b, c Object) (ab, bc, ac int, eab, ebc, eac bool) {
 //@   nosafety
 //@   maypanic *
 //@   witness isconst = callresult after Constant#1
-//@   witness old = callresult0 after Get#1
+//@   witness prev = callresult0 after Get#1
 //@   witness found = callresult1 after Get#1
-//@   ensures  reject:: implies(isconst && found && !Equals(old, val), isType(result, Error))
-//@   property C19
+//@   ensures  @C19 reject:: implies(isconst && found && !Equals(prev, val), isType(result, Error))
+//@   ensures  @C04 mono:: missmono()
+//@   property C19 C04
 
 //@ func (*Environment).Set
 //@   requires e != nil
@@ -298,7 +331,8 @@ func lemmaCmpTrans(a, b, c Object) (ab, bc, ac int, eab, ebc, eac bool) {
 //@   modifies *
 //@   nosafety
 //@   maypanic *
-//@   property C19
+//@   ensures  @C04 mono:: missmono()
+//@   property C19 C04
 
 // ---- integer registers (C05): allocation is bounded by NumRegisters and strictly LIFO ----
 //@ func (*Environment).HasRegisters
